@@ -32,6 +32,21 @@ Section Dataset.
     end.
 End Dataset.
 
+(* groupBatchItemsByPartition: the items of a batch grouped under their owners (a Go map from partition to the items
+   appended in batch order; here an association list, groups in order of first appearance) - one worker per group *)
+Fixpoint add_to_group (o : N) (it : list N) (gs : list (N * list (list N))) : list (N * list (list N)) :=
+  match gs with
+  | [] => [(o, [it])]
+  | (o', g) :: t => if o' =? o then (o', g ++ [it]) :: t else (o', g) :: add_to_group o it t
+  end.
+Definition group_batch (p : path) (n : N) (items : list (list N)) : option (list (N * list (list N))) :=
+  fold_left (fun acc it => match acc, owner p it n with
+                           | Some gs, Some o => Some (add_to_group o it gs)
+                           | _, _ => None
+                           end) items (Some []).
+Definition owned_by (p : path) (n o : N) (it : list N) : bool :=
+  match owner p it n with Some o' => o' =? o | None => false end.
+
 (* checker used by the harness: (id bytes, m, observed) *)
 Definition route_case_ok (c : list N * N * option N) : bool :=
   let '(id, m, obs) := c in
